@@ -73,6 +73,10 @@ func Warriors() []AW {
 		{"dwarf", [][6]int{{int(g.ADD), int(g.AB), I, 4, D, 3}, {int(g.MOV), int(g.I), D, 2, N, 2}, {int(g.JMP), int(g.B), D, -2, D, 0}, {int(g.DAT), int(g.F), I, 0, I, 0}}, 0},
 		{"counter", [][6]int{{int(g.DJN), int(g.B), D, 0, I, 3}}, 0},
 		{"skipper", [][6]int{{int(g.CMP), int(g.I), D, 0, D, 1}, {int(g.JMP), int(g.B), D, -1, D, 0}}, 0},
+		// a fan of processes of which only one does the bombing: the outcome
+		// against a stationary opponent depends on the process limit
+		{"fan", [][6]int{{int(g.SPL), int(g.B), D, 0, D, 0}, {int(g.DJN), int(g.B), D, -1, I, 5}, {int(g.MOV), int(g.I), D, 2, P, -1}}, 0},
+		{"sitter", [][6]int{{int(g.JMP), int(g.B), D, 0, D, 0}}, 0},
 	}
 }
 
@@ -377,7 +381,20 @@ func (c *Ctx) Run(tier string) {
 			}
 		}
 	}
-	rep.Bound = fmt.Sprintf("freshly built cmd/gmars: every ordered pair of the 8 generated warriors that fits -l x every -F in 1..M-1 x (-s,-l) in %v x -p in %v x -c in %v x -8 on/off x -r in %v", geos, procs, cycles, rounds)
+	// the process-limit-sensitive pair under a sweep of -p around and above the core size
+	for _, pr := range [][2]int{{8, 9}, {9, 8}} {
+		for _, p := range []int{1, 2, 3, 5, 8, 12, 13, 14, 20, 100} {
+			if !c.mine() || c.expired() {
+				continue
+			}
+			for _, cy := range []int{40, 100} {
+				for F := 1; F < 13; F++ {
+					c.Check(&Case{W1: pr[0], W2: pr[1], Size: 13, Procs: p, Cycles: cy, Len: 4, Fixed: F, Rounds: 1, Note: "process-limit sweep"})
+				}
+			}
+		}
+	}
+	rep.Bound = fmt.Sprintf("freshly built cmd/gmars: every ordered pair of the 8 generated warriors that fits -l x every -F in 1..M-1 x (-s,-l) in %v x -p in %v x -c in %v x -8 on/off x -r in %v; a process-limit-sensitive pair under -p in {1,2,3,5,8,12,13,14,20,100} (below, at and above the core size) x -c in {40,100} x every -F", geos, procs, cycles, rounds)
 	// single warrior runs
 	for i := range ws {
 		if !c.mine() {
